@@ -1,7 +1,9 @@
 (* Properties/C10.v — Arr2D::inverse.  Statements only; every proof is `exact` of a lemma
    of Proofs/Inverse.v.  All statements are about the R instance of [inverse]
    (Model/Inverse.v: PLU, then per column forward and back substitution), the function
-   that is extracted and run against the Rust code; rounding is measured by the oracle.
+   that is extracted and run against the Rust code; rounding is measured by the oracle, and for the
+   binary64 instance an END-TO-END componentwise residual bound of every returned column is PROVED
+   at the end of this file (c10_inverse_float_residual, Proofs/SolveFloat.v).
    Vocabulary (Proofs/LU.v): [mprod n A B i j] = sum_t A i t * B t j;
    [left_null n A w]: w is a non-zero vector with w^T A = 0 (A is singular);
    [right_null n A x]: x is a non-zero vector with A x = 0. *)
@@ -102,3 +104,83 @@ Print Assumptions c10_product.
 (* non-vacuity: [[0,1],[1,0]], whose factorisation needs a row interchange, is inverted *)
 Example c10_nonvacuous : exists B, inverse 2 2 ex_swap = Ok B.
 Proof. exact Proofs.Inverse.ex_inverse_ok. Qed.
+
+(* ---------------------------------------------------------------------------------------------
+   FLOAT instance (binary64 [@inverse float FNum], the function that is extracted and run against
+   Arr2D::inverse): END-TO-END componentwise residual of every column of the returned matrix
+   (Proofs/SolveFloat.v, composed from c09_plu_float_backward_error, c08_forward_substitution_float_error,
+   c08_back_substitution_float_error and the real lemma c08_lu_solve_residual).
+   L, U, P are the factors of [plu n n A] (the very call made inside [inverse]); s is the row permutation
+   encoded by P (P i j = [j = s i]).  Intermediate vectors of column j, as the model computes them:
+   [inv_rhs n P j] = column j of P (the permuted unit vector), [inv_y n L P j] = the forward-substitution
+   result, [inv_x n L U P j] = the back-substitution result (= column j of the returned matrix).
+   Hypotheses, all on returned/intermediate values and checkable by computation: [plu_entry_ok]
+   (factorisation, Proofs/PLUFloat.v), [fwd_row_ok] / [back_row_ok] (substitutions, Proofs/SubstFloat.v).
+   --------------------------------------------------------------------------------------------- *)
+From Coq Require Import Floats.
+From Flocq Require Import Core BinarySingleNaN PrimFloat.
+From SV Require Import Model.Subst Proofs.StatsFloat Proofs.PolyFloat Proofs.SubstFloat Proofs.PLUFloat Proofs.SolveFloat.
+
+(* | sum_k A_(s i)k B_kj - [j = s i] |  <=  (g_n + g_(n+1) (1 + g_(n+1)) + g_(n+1)) * sum_t sum_k |L_it| |U_tk| |B_kj|,
+   g_m = (1+2^-53)^m - 1: column j of the returned B solves A x = e_j (row s i of it) up to a small componentwise residual *)
+Theorem c10_inverse_float_residual : forall (n : nat) (A B : mat PrimFloat.float),
+  inverse n n A = Ok B ->
+  exists L U P, plu n n A = Ok (L, U, P) /\
+  forall s : nat -> nat,
+  (forall i j, (i < n)%nat -> (j < n)%nat ->
+     P i j = if (j =? s i)%nat then PrimFloat.one else PrimFloat.zero) ->
+  (forall i k, (i < n)%nat -> (k < n)%nat -> plu_entry_ok (fun r c => A (s r) c) L U i k) ->
+  forall j, (j < n)%nat ->
+  (forall i, (i < n)%nat ->
+     fwd_row_ok L (inv_rhs n P j) (forward_substitution L n (inv_rhs n P j) (vconst n0)) i) ->
+  (forall i, (i < n)%nat -> back_row_ok U n (inv_y n L P j) (inv_x n L U P j) i) ->
+  forall i, (i < n)%nat ->
+    is_finite (Prim2B (B i j)) = true /\
+    Rabs (msum 0 n (fun k => B2R (Prim2B (A (s i) k)) * B2R (Prim2B (B k j)))
+          - (if (j =? s i)%nat then 1 else 0))
+    <= (((1 + bpow radix2 (-53)) ^ n - 1)
+        + ((1 + bpow radix2 (-53)) ^ (n + 1) - 1) * (1 + ((1 + bpow radix2 (-53)) ^ (n + 1) - 1))
+        + ((1 + bpow radix2 (-53)) ^ (n + 1) - 1))
+       * msum 0 n (fun t => msum 0 n (fun k =>
+           Rabs (B2R (Prim2B (L i t))) * Rabs (B2R (Prim2B (U t k))) * Rabs (B2R (Prim2B (B k j))))).
+Proof. exact Proofs.SolveFloat.inverse_float_residual. Qed.
+Check c10_inverse_float_residual : forall (n : nat) (A B : mat PrimFloat.float),
+  inverse n n A = Ok B ->
+  exists L U P, plu n n A = Ok (L, U, P) /\
+  forall s : nat -> nat,
+  (forall i j, (i < n)%nat -> (j < n)%nat ->
+     P i j = if (j =? s i)%nat then PrimFloat.one else PrimFloat.zero) ->
+  (forall i k, (i < n)%nat -> (k < n)%nat -> plu_entry_ok (fun r c => A (s r) c) L U i k) ->
+  forall j, (j < n)%nat ->
+  (forall i, (i < n)%nat ->
+     fwd_row_ok L (inv_rhs n P j) (forward_substitution L n (inv_rhs n P j) (vconst n0)) i) ->
+  (forall i, (i < n)%nat -> back_row_ok U n (inv_y n L P j) (inv_x n L U P j) i) ->
+  forall i, (i < n)%nat ->
+    is_finite (Prim2B (B i j)) = true /\
+    Rabs (msum 0 n (fun k => B2R (Prim2B (A (s i) k)) * B2R (Prim2B (B k j)))
+          - (if (j =? s i)%nat then 1 else 0))
+    <= (((1 + bpow radix2 (-53)) ^ n - 1)
+        + ((1 + bpow radix2 (-53)) ^ (n + 1) - 1) * (1 + ((1 + bpow radix2 (-53)) ^ (n + 1) - 1))
+        + ((1 + bpow radix2 (-53)) ^ (n + 1) - 1))
+       * msum 0 n (fun t => msum 0 n (fun k =>
+           Rabs (B2R (Prim2B (L i t))) * Rabs (B2R (Prim2B (U t k))) * Rabs (B2R (Prim2B (B k j))))).
+Print Assumptions c10_inverse_float_residual.
+
+(* non-vacuity, by computation: A = [[1,2,3],[4,5,6],[7,8,10]] (two row interchanges, s = (2,0,1)) is inverted and
+   every hypothesis of c10_inverse_float_residual holds, for all three columns (the exact zeros of the unit
+   right-hand sides are covered by the criteria okmul_zero_l/r, okdiv_zero of Proofs/SolveFloat.v) *)
+Example c10_float_nonvacuous_inverse : exists B L U P,
+  inverse 3 3 (mat_of_lists [[0x1p+0; 0x1p+1; 0x1.8p+1]; [0x1p+2; 0x1.4p+2; 0x1.8p+2]; [0x1.cp+2; 0x1p+3; 0x1.4p+3]]%float) = Ok B /\
+  plu 3 3 (mat_of_lists [[0x1p+0; 0x1p+1; 0x1.8p+1]; [0x1p+2; 0x1.4p+2; 0x1.8p+2]; [0x1.cp+2; 0x1p+3; 0x1.4p+3]]%float) = Ok (L, U, P) /\
+  (forall i j, (i < 3)%nat -> (j < 3)%nat ->
+     P i j = if (j =? match i with 0 => 2 | 1 => 0 | _ => 1 end)%nat then PrimFloat.one else PrimFloat.zero) /\
+  (forall i k, (i < 3)%nat -> (k < 3)%nat ->
+     plu_entry_ok
+       (fun r c => mat_of_lists [[0x1p+0; 0x1p+1; 0x1.8p+1]; [0x1p+2; 0x1.4p+2; 0x1.8p+2]; [0x1.cp+2; 0x1p+3; 0x1.4p+3]]%float
+                     (match r with 0 => 2 | 1 => 0 | _ => 1 end)%nat c)
+       L U i k) /\
+  forall j, (j < 3)%nat ->
+    (forall i, (i < 3)%nat ->
+       fwd_row_ok L (inv_rhs 3 P j) (forward_substitution L 3 (inv_rhs 3 P j) (vconst n0)) i) /\
+    (forall i, (i < 3)%nat -> back_row_ok U 3 (inv_y 3 L P j) (inv_x 3 L U P j) i).
+Proof. exact Proofs.SolveFloat.ex_inverse_residual_hyps. Qed.
